@@ -35,6 +35,8 @@
 //	   n statements and whose baseline error is nil, |R(k)| = k for k <= n     [C16_script]
 //	X  reader run at b == oracle run at k = (polls before byte b was first requested in the
 //	   baseline run)                                                           [C16 (ii)]
+//	G  the baseline run polls the context at most once per token (every iteration consumes a
+//	   token: the progress premise of the theorems)
 //	B  position bounds that do not depend on how the context is polled (only for clean
 //	   segmentations): L(b) <= |stmts(b)| <= U(b), computed from the token positions and the
 //	   parser's three-token window (lexer look-ahead W = 64 bytes, 8192 if the script has a '$')
@@ -452,6 +454,10 @@ func checkScript(src []byte) (nBase int, runs int, v violations) {
 	}
 	if base.class == "nil" && !br.eof {
 		v.add("baseline: nil error but the input was not read to the end (reader at %d of %d)", br.pos, len(src))
+	}
+	// every iteration consumes at least one token (ps_progress, the premise of the theorems)
+	if polls > len(g.starts) {
+		v.add("baseline: %d loop iterations for %d tokens (an iteration consumed nothing)", polls, len(g.starts))
 	}
 	// the same with context.Background() and bytes.Reader
 	plain := parseOnce(context.Background(), bytes.NewReader(src))
